@@ -51,7 +51,7 @@ def run(prop, tier, seed, scratch, t0):
              "machine, remove; incl. create-remove-create of one id) executed on a real keyvalue.PersistRestorer after the "
              "shortest path to its source, plus seeded walks; after EVERY step RestoreAll, RestorePeer for every peer, "
              "ActivePeers, RestoreChannel for every id and the raw key listing are compared with the model's live set and "
-             "each restored channel with its own live machine; distinct_nontrivial = distinct graph edges executed",
+             "each restored channel with its own live machine; distinct_nontrivial = distinct graph edges executed; after every removal the store contents between its write units (a process that stops there) are restored as well: every other live channel must come back, with its own data, from RestoreChannel and from RestorePeer of each of its peers",
         exhaustive=True, stores=sorted({c[2] for c in runs}), driver_counts=counts,
         tlc=[dict(config=r["cmd"].split("-config ")[1].split()[0], generated=r["generated"], distinct=r["distinct"],
                   wall_s=round(r["wall"], 1)) for r in tl],
